@@ -310,3 +310,17 @@ def main : IO Unit := do
     (fun bs => outcomeText ((Generated.packHeaderParse bs).map' (fun r => (r.1.1.toString, r.1.2.1, r.1.2.2.1, r.1.2.2.2.1, r.1.2.2.2.2.1, r.1.2.2.2.2.2.1, r.1.2.2.2.2.2.2.1, r.1.2.2.2.2.2.2.2))))
     (fun bs => outcomeText ((PackHeader.decode bs).map' (fun h => (h.kind.toString, h.vendor, h.major, h.minor, h.uuid, h.flags, h.packSize, h.checkInfoPos))))
   cmp1 "sortShape" [()] (fun _ => Generated.entryStoreSortShape.map reprStr) (fun _ => (finalizeSteps [[], []]).map (fun s => reprStr s.kind))
+  -- tails of value stores: plain, indexed with 0..3 values, widths 1 and 2, bound violations, truncations
+  let vsTails : List Bytes := [[0, 5, 0, 0, 0, 0, 0, 0, 0], [0, 5, 0, 0], [1, 0, 0, 0, 0, 0, 0, 0, 0, 1, 0], [1, 1, 0, 0, 0, 0, 0, 0, 0, 1, 9],
+    [1, 3, 0, 0, 0, 0, 0, 0, 0, 1, 9, 2, 5], [1, 3, 0, 0, 0, 0, 0, 0, 0, 1, 9, 2, 10], [1, 3, 0, 0, 0, 0, 0, 0, 0, 2, 9, 1, 2, 0, 5, 1],
+    [1, 3, 0, 0, 0, 0, 0, 0, 0, 1, 9, 2], [1, 3, 0, 0, 0, 0, 0, 0, 0, 0, 9, 2, 5], [1, 3, 0, 0, 0, 0, 0, 0, 0, 9, 9, 2, 5], [2, 0], []]
+  cmp1 "valueStoreBuilderParse" vsTails
+    (fun bs => outcomeText ((Generated.valueStoreBuilderParse bs).map' (fun r => r.1)))
+    (fun bs => outcomeText ((valueStoreTailDecode bs).map' (fun t => ((if t.indexed then some t.offsets else none), t.dataSize))))
+  -- tails of clusters (header bytes, stored size, data size, offsets)
+  let clTails : List Bytes := [[0, 1, 1, 0, 7, 7], [0, 1, 3, 0, 9, 9, 2, 5], [3, 1, 3, 0, 4, 9, 2, 5], [0, 1, 3, 0, 8, 9, 2, 5], [0, 1, 3, 0, 9, 9, 2, 10],
+    [0, 2, 2, 0, 9, 0, 9, 0, 4, 0], [0, 1, 3, 0, 9, 9, 2], [1, 1, 2, 0, 9]]
+  cmp1 "clusterBuilderParse" clTails
+    (fun bs => outcomeText ((Generated.clusterBuilderParse (bs.drop 4) ((bs.getD 0 0).toNat, (bs.getD 1 0).toNat, leNat (slice bs 2 2))).map'
+      (fun r => (r.1.1.1, r.1.1.2.1, r.1.1.2.2, r.1.2))))
+    (fun bs => outcomeText ((ClusterTail.decode bs).map' (fun t => (0 :: t.offsets ++ [t.dataSize], t.dataSize, t.comp, t.rawSize))))
